@@ -11,6 +11,9 @@ const UNRESOLVABLE = [
   ['import type { Ext } from "./ext";\ntype Al = Ext;', 'Al'], ['', 'Missing'], ['', '{ [K in "a" | "b"]: string }'], ['type O = { a: 1 };', 'O[keyof O]'], ['const v = { a: 1 };', 'typeof v'],
   ['type O = { a: 1 };', 'O extends object ? O : never'], ['', 'Readonly<{ a: 1 }>'], ['', 'Record<"a", string>'], ['import type { Keys } from "./ext";', 'Pick<{ a: 1; b: 2 }, Keys>'], ['type O = { a: { b: 1 } };', 'O["zz"]'],
   ['import * as ns from "./ext";', 'ns.Props'],
+  // another module's type that merely shares its name with a global utility type
+  ['import type { Pick } from "./type-utils";\ntype All = { a: 1; b: 2 };', "Pick<All, 'a'>"], ['import type { Partial } from "./type-utils";', 'Partial<{ a: 1 }>'], ['import { Omit } from "./type-utils";', "Omit<{ a: 1; b: 2 }, 'a'>"], ['import type { Required } from "./type-utils";\ninterface I { a?: 1 }', 'Required<I>'],
+  ['import type { Pick as Partial } from "./type-utils";', 'Partial<{ a: 1 }>'],
 ];
 
 export function* generate({ tier, seed }) {
